@@ -310,6 +310,8 @@ def obligations(tier):
     combos = list(itertools.product((False, True), repeat=4))
     for flags in combos:
         obs.append(make_posterior(flags, (2, 1), 3))
+    from vf.props.c08 import make_resume_target
+    obs.append(make_resume_target())  # ESS >= n_total of *this* call also when the run is resumed
     obs.append(make_termination((2, 1), (Fraction(0), Fraction(1))))
     obs.append(make_evidence((2, 1), (Fraction(0), Fraction(1))))
     if tier == "thorough":
